@@ -502,7 +502,7 @@ class SsdpSearchResponder:
         delay = 0
         if mx_header is not None:
             try:
-                delay = min(5, int(mx_header))
+                delay = max(0, min(5, int(mx_header)))
                 if debug:  # pragma: no branch
                     _LOGGER.debug("Deferring response for %d seconds", delay)
             except ValueError:
